@@ -13,6 +13,9 @@ structure DSt where
   cfg : Cfg := Cfg.fixed
   /-- `stat` mode of the driver: print the branch / outcome tags of each op instead of the dump -/
   stat : Bool := false
+  /-- the static `autofree_ctx` of talloc.c: the autofree context is an ordinary top-level object;
+  the slot is empty again once that object is released (its destructor clears it) -/
+  autofree : Option Id := none
 
 def slotId (d : DSt) (slot : Nat) : Option Id :=
   match d.slots.find? (·.1 == slot) with
@@ -338,6 +341,22 @@ def stepLine (d : DSt) (line : String) : DSt × String :=
         | some i => doOp d (.setLimit i m fl)
         | none => (d, "dead"))
     | _, _, _ => (d, "bad-op")
+  | ["autofree", slot] =>
+    match slot.toNat? with
+    | some sl =>
+      (match d.autofree.filter (fun i => d.s.live i) with
+        | some i =>
+          if d.stat then (d, "tags autofree:same")
+          else (d, s!"af=same:{(idSlot d i).getD 0} rc=0 " ++ dump d [])
+        | none =>
+          if (d.slots.find? (·.1 == sl)).isSome then (d, "bad-op")
+          else
+            let id := d.s.heap.length
+            let (d', out) := doOp d (.alloc none 0 false false) (some sl)
+            let d' := { d' with autofree := if d'.s.live id then some id else none }
+            if d.stat then (d', "tags autofree:new") else (d', "af=new " ++ out))
+    | none => (d, "bad-op")
+  | ["exit"] => (d, if d.stat then "tags exit" else "exit=0,0")
   | "nullon" :: rest =>
     match failFlag rest with
     | some fl => doOp d (.nullOn fl)
